@@ -25,6 +25,15 @@ impl<'a> Gen<'a> {
         Gen { ctx, out: Vec::new() }
     }
     pub fn push(&mut self, req: String, tol: Tol, label: &str, nontrivial: bool) {
+        // `learn` requests get a trailing progress-printing interval (0 = none): it must never influence
+        // what training computes, stops at, returns or leaves behind, so every learn case also varies it
+        let req = if req.contains(" learn ") {
+            const PRINTS: [usize; 8] = [0, 2, 0, 3, 1, 50, 0, 4];
+            let k = self.out.len();
+            format!("{} {}", req, PRINTS[k % 8])
+        } else {
+            req
+        };
         self.out.push((req, tol, label.to_string(), nontrivial));
     }
     pub fn rng(&mut self) -> &mut Rng {
